@@ -290,8 +290,13 @@ func c17Command(rc *RunCtx, t *simrt.Tape) {
 	in := filepath.Join(dir, "in"+ext+codecExt[codec])
 	os.WriteFile(in, data, 0644)
 	out := filepath.Join(dir, "out.fastx")
-	spec := CmdSpec{Name: "obiconvert", Dir: dir, PoolPolicy: p.Pool, YieldDensity: p.Yield, StderrNull: p.ErrNull}
+	// every command reads its input through the same entry point; three of them are run
+	cmdName := []string{"obiconvert", "obiconvert", "obigrep", "obiannotate"}[t.Choose(4)]
+	spec := CmdSpec{Name: cmdName, Dir: dir, PoolPolicy: p.Pool, YieldDensity: p.Yield, StderrNull: p.ErrNull}
 	args := []string{"--max-cpu", fmt.Sprint(p.MaxCPU), "--batch-size", fmt.Sprint(p.BatchSize), "-o", out}
+	if cmdName == "obiannotate" {
+		args = append(args, "--length")
+	}
 	transport := "file"
 	if viaStdin {
 		spec.Stdin = in
@@ -344,9 +349,10 @@ func c17Command(rc *RunCtx, t *simrt.Tape) {
 	spec.Args = args
 	reg := region(k, N)
 	codecName := codecNames[codec]
-	rc.Out.Sample = map[string]any{"stage": "command", "format": fmNames[format], "codec": codecName, "transport": transport, "fault": fkNames[kind], "offset": k, "bit": bit, "image_bytes": N, "config": p.String()}
+	rc.Out.Sample = map[string]any{"stage": "command", "command": cmdName, "format": fmNames[format], "codec": codecName, "transport": transport, "fault": fkNames[kind], "offset": k, "bit": bit, "image_bytes": N, "config": p.String()}
 	co := rc.RunCmd(spec)
 	rc.Fault(fmt.Sprintf("command_%s_%s_%s_%s", transport, fkNames[kind], codecName, reg))
+	rc.Probe("command_stage_" + cmdName)
 	rc.Out.Nontrivial = true
 	rc.Out.Key = fmt.Sprintf("cmd/%s/%s/%s/%d/%d/%d", transport, codecName, fkNames[kind], N, k, bit)
 	base := fmt.Sprintf("C17/%s/%s", codecName, fkNames[kind])
@@ -356,7 +362,7 @@ func c17Command(rc *RunCtx, t *simrt.Tape) {
 		rc.Inconclusive("%s", co.Describe())
 		return
 	case co.Deadlock:
-		rc.Violate(base+"/hang/"+reg+stage, "obiconvert hangs on the faulted input: %s", co.Describe())
+		rc.Violate(base+"/hang/"+reg+stage, "%s hangs on the faulted input: %s", cmdName, co.Describe())
 		return
 	case co.Crashed || co.Failed():
 		rc.Probe("command_reported")
@@ -400,7 +406,7 @@ func c17Command(rc *RunCtx, t *simrt.Tape) {
 		outcome = "ok-complete"
 	}
 	rc.Violate(fmt.Sprintf("%s/%s/%s/%s%s", base, dec, outcome, reg, stage),
-		"obiconvert exited with status 0 on a %s image with a %s at offset %d of %d (bit %d), via %s, after writing %d of %d records (%s); library probe: %s",
+		cmdName+" exited with status 0 on a %s image with a %s at offset %d of %d (bit %d), via %s, after writing %d of %d records (%s); library probe: %s",
 		codecName, fkNames[kind], k, N, bit, transport, len(got), len(fc.Recs), p, dec)
 }
 
@@ -455,7 +461,7 @@ func c17StdinError(rc *RunCtx, t *simrt.Tape) {
 
 // c18Command: a command whose output goes to /dev/full must exit non-zero.
 func c18Command(rc *RunCtx, t *simrt.Tape) {
-	name := []string{"obiconvert", "obiconvert", "obicsv", "obigrep"}[t.Choose(4)]
+	name := []string{"obiconvert", "obiconvert", "obicsv", "obigrep", "obiannotate", "obicomplement", "obiuniq"}[t.Choose(7)]
 	n := 1 + t.Choose(30)
 	big := t.Choose(3) == 2
 	if big {
@@ -495,6 +501,8 @@ func c18Command(rc *RunCtx, t *simrt.Tape) {
 		format = "csv"
 	case "obigrep":
 		args = append(args, "-l", "40")
+	case "obiannotate":
+		args = append(args, "--length")
 	}
 	target := t.Choose(3)
 	if name == "obicsv" {
